@@ -102,7 +102,7 @@ KLStep(e) ==
   \/ e.ev = "kl.import" /\ ~e.failed /\ KL!Import(e.t, e.api)
   \/ e.ev = "kl.import" /\ e.failed  /\ e.t \in 1..Len(ts) /\ Bad("keylife/import-fails:" \o e.alg) /\ UNCHANGED klvars   \* importing an exported text always succeeds
   \/ e.ev = "kl.sign"   /\ ~e.failed /\ KL!Sign(e.h)
-  \/ e.ev = "kl.sign"   /\ e.failed  /\ e.h \in 1..Len(hs) /\ Bad("keylife/sign-fails:" \o e.alg) /\ UNCHANGED klvars
+  \/ e.ev = "kl.sign"   /\ e.failed  /\ e.h \in 1..Len(hs) /\ Bad(IF e.errclass = "keytag0" THEN "keylife/sign-refuses-keytag-0" ELSE "keylife/sign-fails:" \o e.alg) /\ UNCHANGED klvars
   \/ e.ev = "kl.verify" /\ KL!Verify(e.key, e.s)
                         /\ IF e.ok = KL!VerifyResult(e.key, e.s) THEN TRUE
                            ELSE Bad(IF e.ok THEN "keylife/verify-accepts-other-key:" \o e.alg ELSE "keylife/verify-rejects-own-key:" \o e.alg)
